@@ -12,7 +12,7 @@ import (
 )
 
 func init() {
-	props["C07"] = &propDef{extraPkgs: []string{jsonPatchPkg}, run: runC07, explanation: "Partial (the 'only if' direction and result fidelity). Decided statically: (G1) outside batch mode, Parse succeeds only across the success edge of every protocol rule, per operation type — size gate before decoding, known type, suffix-data and delta presence, every hash rule (length ≤ MaxOperationHashLength, algorithm ∈ MultihashAlgorithms), non-empty patches each with a supported+enabled action and a passing patch validator (for-all loop form), delta size ≤ MaxDeltaSize, delta-hash binding, signing-key rules (present, valid, curve ∈ KeyAlgorithms, nonce empty or of NonceSize), protected-header rules (C02.G4), anchor-origin and time validators, reveal-value match, key-reuse and distinct-commitment rules, deactivate suffix equality; (K1) every one of the nine Protocol parameters the parser/applier read reaches exactly its own sink (comparison with the right length, membership loop, arithmetic with anchorFrom), with the documented operator; (P1) the returned operation carries type, suffix, namespaced id, the original bytes and the anchor origin of the parsed request. Not decided: the 'if' direction (no spurious rejections inside encoding/json, net/url, go-jose) and the semantic correctness of individual patch rules (C13). The protected-header rules of C02.G4 run inside this check as well. Each size limit is compared at exactly one place. The algorithm half of the hash test compares the code GetMultihashCode decodes from a well-formed multihash. All of C06 and the duplicate-refusing header decoder rule run inside this check; the decoded request is not modified."}
+	props["C07"] = &propDef{extraPkgs: []string{jsonPatchPkg}, run: runC07, explanation: "Partial (the 'only if' direction and result fidelity). Decided statically: (G1) outside batch mode, Parse succeeds only across the success edge of every protocol rule, per operation type — size gate before decoding, known type, suffix-data and delta presence, every hash rule (length ≤ MaxOperationHashLength, algorithm ∈ MultihashAlgorithms), non-empty patches each with a supported+enabled action and a passing patch validator (for-all loop form), delta size ≤ MaxDeltaSize, delta-hash binding, signing-key rules (present, valid, curve ∈ KeyAlgorithms, nonce empty or of NonceSize), protected-header rules (C02.G4), anchor-origin and time validators, reveal-value match, key-reuse and distinct-commitment rules, deactivate suffix equality; (K1) every one of the nine Protocol parameters the parser/applier read reaches exactly its own sink (comparison with the right length, membership loop, arithmetic with anchorFrom), with the documented operator; (P1) the returned operation carries type, suffix, namespaced id, the original bytes and the anchor origin of the parsed request. Not decided: the 'if' direction (no spurious rejections inside encoding/json, net/url, go-jose) and the semantic correctness of individual patch rules (C13). The protected-header rules of C02.G4 run inside this check as well. Each size limit is compared at exactly one place. The algorithm half of the hash test compares the code GetMultihashCode decodes from a well-formed multihash. All of C06 and the duplicate-refusing header decoder rule run inside this check; the decoded request is not modified. No parser function writes through a model / operation / JWK it is handed; C09.U1 runs here."}
 }
 
 func lenOf(p string) string  { return "len(" + p + ")" }
@@ -385,17 +385,71 @@ func runC07(c *Ctx) {
 			}
 		}
 	}
-	c.Min("C07.P1", 7)
+	// what is checked is what is reported: the parser's functions write through no model or key pointer they are handed
+	// (a validator that "normalises" the key it inspects changes the key the next check hashes: reveal values and
+	// commitments are then computed from something the client did not sign)
+	{
+		var bad []string
+		n := 0
+		for _, f := range c.Funcs {
+			if pkgPathOf(f) != modPkg+pParser || f.Blocks == nil {
+				continue
+			}
+			n++
+			forEachInstr(f, func(in ssa.Instruction) {
+				var addr ssa.Value
+				switch x := in.(type) {
+				case *ssa.Store:
+					addr = x.Addr
+				case *ssa.MapUpdate:
+					addr = x.Map
+				default:
+					return
+				}
+				if _, isFA := addr.(*ssa.FieldAddr); !isFA {
+					if _, isIA := addr.(*ssa.IndexAddr); !isIA {
+						if _, isMU := in.(*ssa.MapUpdate); !isMU {
+							return
+						}
+					}
+				}
+				// the root of the address, through loads of pointer members (sd.RecoveryKey.Nonce = …) and copies of the pointer
+				root := rootOf(addr)
+				for d := 0; d < 6; d++ {
+					if ld, isLd := root.(*ssa.UnOp); isLd && ld.Op == token.MUL {
+						root = rootOf(ld.X)
+						continue
+					}
+					break
+				}
+				p, isP := root.(*ssa.Parameter)
+				if !isP {
+					return
+				}
+				tn := typeShort(derefT(p.Type()))
+				if strings.HasPrefix(tn, "versions/1_0/model.") || strings.HasPrefix(tn, "jws.") || strings.HasPrefix(tn, "api/operation.") {
+					bad = append(bad, fmt.Sprintf("%s: %s writes through its argument %s (%s)", c.pos(in.Pos()), short(f.String()), p.Name(), tn))
+				}
+			})
+		}
+		c.Check("C07.P1", "parser:handed-models-and-keys-not-written", len(bad) == 0 && n >= 30, 0, fmt.Sprintf("%d parser functions: none stores into a model, operation or JWK it was handed", n), bad...)
+	}
+	c.Min("C07.P1", 8)
 	c.Assume("the 'if' direction (every conforming request is accepted) is not decided; encoding/json, net/url and go-jose are trusted not to reject conforming input")
 	// "only well-formed hashes and commitments": what the multihash helpers accept and what IsValidModelMultihash
 	// compares (whole digests, recomputed with the supplied code) is the subject of C06
-	runC06(c)
+	c.apart(runC06)
 	// "only alg/kid protected headers, an allowed algorithm": decided on the decoded header map — the decoder must
 	// refuse a header that spells a member twice
 	c.strictHeaderDecoderRule()
 	// "individually valid patches": ValidateDelta hands every patch to the patch validator, whose per-action rules are C13
 	// (with the JSON-patch pointer rules of C11)
-	runC13(c)
+	c.apart(runC13)
+	// "accepted if well-formed": the signed anchoring times are no acceptance condition of the parser — it hands them to
+	// the configured time validator (non-batch) and compares them with nothing itself (C09.U1); a consistency test of its
+	// own refuses, in batch mode too, operations the applier is documented to degrade
+	c.only(runC09, "C09.U1")
+	c.Min("C09.U1", 1)
 }
 
 // keyReuse: success implies the false edge of GetCommitment(key, code(next)) == next.
